@@ -30,7 +30,7 @@ Qed.
 
 Definition keepB (c : cfg) (f t0 t1 : N) (gk : list call) : bool :=
   negb (is_nil gk)
-  || ((threshold c <? tdelta t1 t0)%N && (negb (caller_filter c) || q_caller (trig_of c f)))
+  || ((threshold c <=? tdelta t1 t0)%N && (negb (caller_filter c) || q_caller (trig_of c f)))
   || q_trace (trig_of c f).
 Fixpoint selB (c : cfg) (n : call) : list call :=
   match n with
@@ -62,7 +62,7 @@ Section RecB.
 
   Lemma leaveB (cl tr wr : bool) f t0 t1 i dp0 dp stk ri ou hk : (t0 < t1)%N -> (t1 < two64)%N ->
     MC.dstep mc (mk i 0 dp0 (FrB cl tr wr f t0 0 ri dp :: stk) (ri + 1) ou, true :: hk) (MC.Leave t1)
-    = (if ((threshold c <? tdelta t1 t0)%N && (negb (caller_filter c) || cl)) || wr || tr
+    = (if ((threshold c <=? tdelta t1 t0)%N && (negb (caller_filter c) || cl)) || wr || tr
        then mk i 0 dp (if wr then stk else markw stk) ri
                (ou ++ (if wr then [] else pend stk ++ [mflat_rec false ri t0 f]) ++ [mflat_rec true ri t1 f])
        else mk i 0 dp stk ri ou, hk).
@@ -71,7 +71,7 @@ Section RecB.
     assert (Hri : (if (0 <? ri + 1)%N then (ri + 1 - 1)%N else 0%N) = ri) by (destruct (0 <? ri + 1)%N eqn:E; lia).
     assert (Ht1 : (t1 =? 0)%N = false) by lia.
     mstep. cbn -[N.modulo N.add N.sub N.ltb MC.flush_anc]. rewrite Hri.
-    destruct (threshold c <? (t1 + 18446744073709551616 - t0) mod 18446744073709551616)%N eqn:EL;
+    destruct (threshold c <=? (t1 + 18446744073709551616 - t0) mod 18446744073709551616)%N eqn:EL;
       destruct (caller_filter c), cl, wr, tr;
       cbn -[N.modulo N.add N.sub N.ltb MC.flush_anc]; unfold MC.record_trace_data; cbn -[MC.flush_anc];
       rewrite ?Ht1; try reflexivity;
@@ -119,7 +119,7 @@ Section RecB.
     destruct (flat_map (selB c) ks) as [|x g'] eqn:Eg.
     - cbn [after]. cbn [MC.exec fold_left]. rewrite (leaveB _ _ false f t0 t1 i (dp + 1)%N dp stk ri ou hk H01 H1).
       cbn [is_nil negb orb]. rewrite orb_false_r.
-      destruct ((threshold c <? tdelta t1 t0)%N && (negb (caller_filter c) || q_caller (trig_of c f)) || q_trace (trig_of c f));
+      destruct ((threshold c <=? tdelta t1 t0)%N && (negb (caller_filter c) || q_caller (trig_of c f)) || q_trace (trig_of c f));
         [|reflexivity].
       cbn [after flat_map mflat]. unfold mk. rewrite app_nil_r. rewrite <- ?app_assoc. reflexivity.
     - cbn [after]. destruct (markw_consB (q_caller (trig_of c f)) (q_trace (trig_of c f)) f t0 ri dp stk) as [M P].
@@ -141,9 +141,9 @@ Proof.
   { clear -IH Hwk. induction IH as [|k ks Hk _ IHks]; [reflexivity|]. inversion Hwk; subst.
     cbn [flat_map]. rewrite Hk, IHks by assumption. reflexivity. }
   rewrite <- E. unfold keepB. rewrite (Htr f). cbn [btrig q_caller q_trace].
-  replace (negb (tdelta t1 t0 <? threshold c)%N) with (threshold c <? tdelta t1 t0)%N by lia.
+  replace (negb (tdelta t1 t0 <? threshold c)%N) with (threshold c <=? tdelta t1 t0)%N by lia.
   fold (is_nil (flat_map (selB c) ks)).
-  destruct (is_nil (flat_map (selB c) ks)), ((threshold c <? tdelta t1 t0)%N && (negb (caller_filter c) || q_caller (trig_of c f))),
+  destruct (is_nil (flat_map (selB c) ks)), ((threshold c <=? tdelta t1 t0)%N && (negb (caller_filter c) || q_caller (trig_of c f))),
            (q_trace (trig_of c f)); reflexivity.
 Qed.
 
